@@ -206,4 +206,15 @@ theorem decodeOpts_encodeOpts (name : Bytes) (c : Cfg) (hn : (34 : UInt8) ∉ na
   rw [leadingNat_ridOf c.metric 44 _ (by decide), leadingNat_ridOf c.dim 44 _ (by decide),
     leadingNat_ridOf c.quant 125 _ (by decide)]
 
+theorem openFile_overwrite (existing : Option Bytes) : openFile existing .createAndOverwrite = openFile none .createIfNotExists := by
+  cases existing <;> rfl
+
+/-- **create-and-overwrite discards whatever the file held**: the result is the newly created collection, independent of the old bytes -/
+theorem overwrite_discards (existing : Option Bytes) (name : Bytes) (opts : Cfg) (dec : Bytes → Cfg → Option Cfg) :
+    newCollection existing name opts .createAndOverwrite dec = newCollection none name opts .createIfNotExists dec := by
+  unfold newCollection
+  rw [openFile_overwrite existing]
+  simp only [ne_eq, not_true_eq_false, decide_false, Bool.false_and, reduceCtorEq, not_false_eq_true, decide_true, Bool.true_and,
+    Bool.false_eq_true, ↓reduceIte]
+
 end Syzgy
